@@ -204,16 +204,25 @@ def c12_set(names):
 
 
 PROPS['C12'] = {
-    'verus': [],
+    'verus': ['u_evalv'],
     'kani': {'quick': [kset('c12', c12_set(['c12_n1_k3', 'c12_n2_k3', 'c12_n3_k3', 'c12_n4_k3', 'c12_n5_k2', 'c12_n6_k2', 'c12_long_n24_k2', 'c12_long_n17_k3']))],
              'thorough': [kset('c12', c12_set(['c12_n1_k3', 'c12_n2_k3', 'c12_n3_k3', 'c12_n4_k3', 'c12_n3_k4', 'c12_n4_k4', 'c12_n5_k2', 'c12_n6_k2', 'c12_n8_k2', 'c12_n12_k2', 'c12_long_n24_k2', 'c12_long_n17_k3']), timeout=6000)]},
     'probe': True,
-    'level': 'model_checking',
-    'explanation': 'Kani harness on the real evaluate_v with recording Tag pieces and a counting input iterator: for sorted non-NaN ends and any non-NaN '
-                   'argument sequence, output k is the piece direct evaluation selects for the running maximum, evaluated at argument k itself, produced '
-                   'after exactly k+1 inputs were pulled; for non-decreasing arguments that piece is the one pointwise evaluation selects. Bounded in N and K '
-                   '(the cursor lives inside the returned closure, so no invariant can be attached to it).',
-    'assumptions': [PARAM, 'bounded: (N segments, K arguments) in {(1..4,3), (5,2), (6,2)} with symbolic breakpoints and (24,2), (17,3) on the concrete breakpoint grid 0,0,1,1,2,.. with an exact size hint (quick); plus (3,4), (4,4), (8,2), (12,2) (thorough)'],
+    'level': 'other',
+    'explanation': 'Verus (unit u_evalv): the body of the closure that evaluate_v returns is extracted mechanically as a step function (vgen rule 14: the captured '
+                   'cursor prev_seg becomes a local initialised from a parameter and is returned with the value) and proved, for an abstract piece type, ANY number of '
+                   'segments and EVERY non-NaN argument, against the contract: from any state satisfying the cursor invariant ev_inv (before the first argument the '
+                   'cursor is 0, afterwards it is sel(segments, m) for the running maximum m) the step returns segments[sel(segments, max(m, x))].poly.ev(x), '
+                   're-establishes ev_inv for max(m, x), and when x is not below m the result is exactly what the contract of Piecewise::evaluate gives for x. '
+                   'Inductive in ev_inv, hence every argument sequence of any length. The wrapper around the closure (assert!, `let mut prev_seg = 0`, '
+                   '`xs.into_iter().map(..)`: laziness, order, one output per input) is outside the Verus subset: its text is pinned by hash and it is decided by the '
+                   'Kani harnesses on the real evaluate_v with recording Tag pieces and a counting input iterator (output k is produced after exactly k+1 inputs '
+                   'were pulled), bounded in N and K.',
+    'assumptions': [PARAM, FM_BITS, FM_ORD,
+                    'u_evalv: vgen rule 14 (closure body as step function); the wrapper text of evaluate_v (initial cursor 0, non-empty assert, Iterator::map) is NOT verified by Verus: pinned by normalised sha256, an edit there makes the unit undecided and leaves the decision to the Kani harnesses',
+                    'trusted contracts (assume_specification) for <slice::Iter as Iterator>::position and Option::map_or; vstd contracts for Vec range indexing, slice::iter, Vec indexing, Vec::len',
+                    'contracts of Piecewise::evaluate and Segment::evaluate are assumed in u_evalv and proved in u_pwsel',
+                    'bounded (Kani part: wrapper, laziness): (N segments, K arguments) in {(1..4,3), (5,2), (6,2)} with symbolic breakpoints and (24,2), (17,3) on the concrete breakpoint grid 0,0,1,1,2,.. with an exact size hint (quick); plus (3,4), (4,4), (8,2), (12,2) (thorough)'],
 }
 
 
